@@ -499,6 +499,11 @@ def g_bitmap(ch, pool, ctx, opts, depth):
             if opts.marker_under_ops and op != 225 and want_wrap:
                 wrap = ch.weighted([(2, (201129, 201000)), (1, (202129, 202000)), (1, (207001, 207000)),
                                     (1, (208002, 208000))])
+            elif opts.marker_under_ops and op == 225 and want_wrap:
+                # difference statistics while a width / scale change is in force: one bit more than the changed width, the
+                # reference value still minus two to the Table B width
+                wrap = ch.weighted([(2, (201000 + 128 + ch.int(1, 3), 201000)), (1, (202129, 202000))])
+                ctx.features.add('225255_under_201_or_202')
             if wrap:
                 # the operator pair sits inside the replication so the class-31 factor stays outside it
                 blk += [103000, 31001, wrap[0], marker, wrap[1]]
